@@ -5,7 +5,7 @@
     livesql/marshal.go); proofs: Sql/CodecProofs.v.  [env_laws e] are the guarantees of strconv, time
     and mysql.parseDateTime the codec relies on (parse after format is the identity). *)
 From Coq Require Import List ZArith String.
-From Thunder Require Import Sql.Codec Sql.CodecProofs.
+From Thunder Require Import Sql.TimeText Sql.TimeTextProofs Sql.Codec Sql.CodecProofs Sql.CodecTime.
 Import ListNotations.
 Open Scope Z_scope.
 
@@ -98,6 +98,76 @@ Theorem pointer_to_nil_payload_refuted :
 Proof. exact CodecProofs.pointer_to_nil_payload_refuted. Qed.
 Print Assumptions pointer_to_nil_payload_refuted.
 
+(** * Times, concretely (Sql/TimeText.v): a time is its Unix nanoseconds; time.Format's three layouts and
+    mysql.parseDateTime (the lengths it accepts, the zero date, time.Parse chunk by chunk) are Gallina
+    functions, compared with Go on every run.  The two time laws of [env_laws] are theorems about them. *)
+
+(** The text at microsecond / second precision parses back to the time truncated to that precision, for
+    every time whose year has four digits (0000-01-01 .. 9999-12-31 23:59:59.999999999). *)
+Theorem time_text_carries_its_precision :
+  forall t, text_range t = true ->
+    parse_datetime (fmt_us_c t) = Some (t - t mod 1000) /\
+    parse_datetime (fmt_sec_c t) = Some (t - t mod 1000000000).
+Proof. exact (fun t H => conj (parse_fmt_us t H) (parse_fmt_sec t H)). Qed.
+Print Assumptions time_text_carries_its_precision.
+
+(** The calendar underneath: (year, month, day) of a day number is a valid date and gives the day number
+    back, for every integer. *)
+Theorem calendar_round_trip :
+  forall z y m d, civil_from_days z = (y, m, d) ->
+    1 <= m <= 12 /\ 1 <= d <= days_in y m /\ days_from_civil y m d = z.
+Proof. exact civil_roundtrip. Qed.
+Print Assumptions calendar_round_trip.
+
+(** Hence the environment whose time fields are these functions satisfies [env_laws] as soon as strconv's
+    float formatting does: nothing is assumed about times any more. *)
+Theorem time_laws_are_theorems :
+  forall e, float_laws e -> env_laws (time_env e).
+Proof. exact time_env_laws. Qed.
+Print Assumptions time_laws_are_theorems.
+
+Theorem scan_after_value_is_identity_concrete_time :
+  forall e d x c p s,
+    float_laws e -> desc_ok d = true -> fval_ok (time_env e) d x = true -> col_matches d c p = true ->
+    repr (time_env e) c p (valuer d (dyn_of d x)) = Some s ->
+    scanner (time_env e) d s = Ok x.
+Proof. exact scan_roundtrip_ct. Qed.
+Print Assumptions scan_after_value_is_identity_concrete_time.
+
+Theorem build_after_unbuild_is_identity_concrete_time :
+  forall e t x row, float_laws e -> row_repr (time_env e) t x row -> build (time_env e) t row = Ok x.
+Proof. exact build_unbuild_ct. Qed.
+Print Assumptions build_after_unbuild_is_identity_concrete_time.
+
+Theorem parse_binlog_row_after_unbuild_is_identity_concrete_time :
+  forall e t x row cols brow,
+    float_laws e -> row_repr (time_env e) t x row -> NoDup cols -> List.length brow = List.length cols ->
+    Forall2 (fun nd s => exists j, nth_error cols j = Some (fst nd) /\ nth_error brow j = Some s) t row ->
+    parse_binlog_row (time_env e) t (fst (column_map t cols)) (snd (column_map t cols)) brow = Ok x.
+Proof. exact parse_binlog_roundtrip_ct. Qed.
+Print Assumptions parse_binlog_row_after_unbuild_is_identity_concrete_time.
+
+(** Which precision survives: a time column (time.Time, *time.Time, implicitnull) read back from the text
+    a DATETIME(6) / DATETIME column renders gives the time truncated to micro- / whole seconds; the struct
+    comes back equal exactly when the time had no finer precision than the column. *)
+Theorem time_column_precision :
+  forall e d t, time_desc d = true -> text_range t = true ->
+    scanner (time_env e) d (SBytes (fmt_us_c t)) = Ok (FVal (GTime (t - t mod 1000))) /\
+    scanner (time_env e) d (SStr (fmt_sec_c t)) = Ok (FVal (GTime (t - t mod 1000000000))) /\
+    (scanner (time_env e) d (SBytes (fmt_us_c t)) = Ok (FVal (GTime t)) <-> t mod 1000 = 0) /\
+    (scanner (time_env e) d (SStr (fmt_sec_c t)) = Ok (FVal (GTime t)) <-> t mod 1000000000 = 0).
+Proof. exact time_text_precision. Qed.
+Print Assumptions time_column_precision.
+
+(** Outside the four-digit years the text is not read back at all (10000-01-01 00:00:00 and
+    -0001-12-31 23:59:59 have lengths mysql.parseDateTime does not know): [storable] excludes them. *)
+Theorem time_text_out_of_range_refuted :
+  text_range (max_text_t + 1) = false /\ (max_text_t + 1) mod 1000000000 = 0 /\
+  parse_datetime (fmt_sec_c (max_text_t + 1)) = None /\
+  text_range (min_text_t - 1000000000) = false /\ parse_datetime (fmt_sec_c (min_text_t - 1000000000)) = None.
+Proof. exact CodecTime.time_text_out_of_range_refuted. Qed.
+Print Assumptions time_text_out_of_range_refuted.
+
 (** Non-vacuity: the laws are satisfiable, and a row with a negative int8 from the binlog, a NULL
     pointer, an implicit NULL, a json-tagged integer read as text and a uint64 on an INT UNSIGNED
     column meets [row_repr]. *)
@@ -120,3 +190,30 @@ Proof.
   eapply (rr_cons _ _ _ _ _ _ _ _ (ColInt 32 true) PBinlog); try reflexivity.
   constructor.
 Qed.
+
+(** Concrete times: the float laws are satisfiable, and a row with a DATETIME(6) column read through the
+    text protocol, a *time.Time from the binlog (string at second precision), a zero time stored as an
+    implicit NULL and a leap day meets [row_repr] in the concrete-time environment. *)
+Example float_laws_satisfiable : float_laws toy_env.
+Proof. exact toy_float_laws. Qed.
+
+Example row_repr_concrete_time_inhabited :
+  let t := [("at"%string, mk_desc BTime false TNone); ("seen"%string, mk_desc BTime true TNone);
+            ("z"%string, mk_desc BTime false TImplicitNull); ("leap"%string, mk_desc BTime false TNone)] in
+  let x := [FVal (GTime 1700000000123456000); FVal (GTime 1700000000000000000); FVal (GTime tzero);
+            FVal (GTime 951782400000000000)] in
+  let row := [SBytes "2023-11-14 22:13:20.123456"; SStr "2023-11-14 22:13:20"; SNull; SBytes "2000-02-29 00:00:00"] in
+  row_repr (time_env toy_env) t x row /\ build (time_env toy_env) t row = Ok x.
+Proof.
+  split; [|vm_compute; reflexivity].
+  eapply (rr_cons _ _ _ _ _ _ _ _ (ColDatetime true) PText); try reflexivity.
+  eapply (rr_cons _ _ _ _ _ _ _ _ (ColDatetime false) PBinlog); try reflexivity.
+  eapply (rr_cons _ _ _ _ _ _ _ _ (ColDatetime true) PText); try reflexivity.
+  eapply (rr_cons _ _ _ _ _ _ _ _ (ColDatetime false) PText); try reflexivity.
+  constructor.
+Qed.
+
+Example sub_microsecond_time_is_truncated :
+  scanner (time_env toy_env) (mk_desc BTime false TNone) (SBytes (fmt_us_c 1700000000123456789))
+  = Ok (FVal (GTime 1700000000123456000)).
+Proof. vm_compute. reflexivity. Qed.
